@@ -146,6 +146,37 @@ def check(repo: Repo, run: Run) -> None:
     # S4: the compiled runner evaluates every call on per-call state, as the interpreter does: a Transpiler /
     # CompiledRunner that keeps bindings, an activation or a namespace from an earlier evaluate() answers with another
     # call's data where the interpreter does not (instances shared with C05's storage-channel inventory)
+    # X4: "the compiled runner never fails at program-construction time for an expression the interpreter can
+    # evaluate": every exception class the effect engine finds leaving Transpiler.transpile (instances of C04.E2,
+    # keyed by class with the list of what raises it). An instance is left out when the interpreter lets the same
+    # class escape from the same origins (C04.E1): then both runners fail alike, which is C04's finding, not a
+    # disagreement.
+    c04 = run.lender(repo, "C04")
+    interp_origins = {}
+    for o in c04.obligations:
+        if o["rule"] == "C04.E1" and not o["ok"]:
+            interp_origins.setdefault(o["key"].rsplit("|", 1)[1], set()).update(o.get("origins") or [])
+
+    def norm_origin(s: str) -> str:
+        return re.sub(r"-?\d+", "N", s)
+
+    def own_origins(o):
+        exc = o["key"].rsplit("|", 1)[1]
+        shared = {norm_origin(x) for x in interp_origins.get(exc, set())}
+        return [x for x in (o.get("origins") or ["?"]) if norm_origin(x) not in shared]
+
+    def construction_only(o):
+        if o["rule"] != "C04.E2" or "Transpiler.transpile" not in o["key"]:
+            return False
+        return o["ok"] or bool(own_origins(o))
+
+    def only_own(rec):
+        if not rec["ok"]:
+            rec["origins"] = own_origins(rec)
+            rec["what"] += f" -- origins the interpreter does not share: {rec['origins']}"
+        return rec
+
+    run.borrow(repo, "C04", "C03.X4", construction_only, 1, transform=only_own)
     run.borrow(repo, "C05", "C03.S4", lambda o: o["rule"].startswith("C05.H") and any(k in o["key"] for k in ("Transpiler", "CompiledRunner", "Phase1", "Phase2")), 3)
     ev = repo.mod("evaluation")
     g = grammar(repo)
